@@ -182,6 +182,55 @@ def _history(args):
                                             "tainted": tainted(it["msg"], needles), "ops": "sweep:" + op, "text": it["msg"][:300]})
                     except Exception:
                         pass
+        # transparent key material: the Key Material of a Register request is a STRUCTURE (Transparent Symmetric Key, RSA
+        # private key ...) whose fields hold the secret.  The library's own writer cannot produce it, so the frames are
+        # assembled at TTLV level from a good Register; the server's codec refuses them - and must not log what they held.
+        if wid < 4:
+            from .. import rawttlv as RT
+            from kmip.core import enums as kenums
+            T = kenums.Tags
+            shapes = [("TRANSPARENT_SYMMETRIC_KEY", [[T.KEY.value, RT.BYTES, CANARIES["k32"]]]),
+                      ("TRANSPARENT_RSA_PRIVATE_KEY", [[T.MODULUS.value, RT.BIGINT, CANARIES["k32"]], [T.PRIVATE_EXPONENT.value, RT.BIGINT, CANARIES["k16"]]]),
+                      ("TRANSPARENT_DSA_PRIVATE_KEY", [[T.P.value, RT.BIGINT, CANARIES["k32"]], [T.X.value, RT.BIGINT, CANARIES["k16"]]]),
+                      ("TRANSPARENT_ECDSA_PRIVATE_KEY", [[T.RECOMMENDED_CURVE.value, RT.ENUM, b"\x00\x00\x00\x01"], [T.D.value, RT.BIGINT, CANARIES["k32"]]]),
+                      ("RAW", [[T.KEY.value, RT.BYTES, CANARIES["k32"]]]), ("OPAQUE", [[T.KEY.value, RT.TEXT, CANARIES["pw"]]])]
+            k = 0
+            for ver in ((1, 0), (1, 4), (2, 0)):
+                for (ot, tok, extra) in (("SymmetricKey", "k16", {"alg": "AES", "len": 128, "fmt": "RAW"}),
+                                         ("PrivateKey", "k16", {"alg": "RSA", "len": 1024, "fmt": "RAW"}),
+                                         ("SecretData", "pw", {})):
+                    req = D.one("Register", {"otype": ot, "attrs": [{"name": "Cryptographic Usage Mask", "v": ["ENCRYPT"]}],
+                                             "obj": dict({"type": ot, "val": tok}, **extra)}, ver=ver)
+                    try:
+                        good = A.encode(A.build_request(req, intern, now=int(D.CLOCK.now)), A.KV(tuple(ver)))
+                    except Exception:
+                        continue
+                    for fmt, fields in shapes:
+                        k += 1
+                        if k % 4 != wid:
+                            continue
+                        tree = RT.parse(good)
+                        n1 = RT.rewrite(tree, T.KEY_MATERIAL.value, lambda node: [node[0], RT.STRUCT, [list(f) for f in fields]])
+                        RT.rewrite(tree, T.KEY_FORMAT_TYPE.value, lambda node: [node[0], node[1], kenums.KeyFormatType[fmt].value.to_bytes(4, "big")])
+                        if n1 != 1:
+                            raise common.MachineryFailure("C20: no key material node in the Register frame")
+                        data = RT.serialise(tree)
+                        mark = len(cap.recs)
+                        conn = S.FakeConn(data, cert=cert)
+                        S.run_session(drv.engine, conn, via_run=(r.random() < 0.3))
+                        for (lvl, name, text) in cap.recs[mark:]:
+                            out.append({"id": "w%d.%d" % (wid, len(out)), "kind": "log", "level": lvl, "logger": name,
+                                        "tainted": tainted(text, needles), "ops": "transparent-key-material:" + fmt,
+                                        "text": text[:300] if tainted(text, needles) else ""})
+                        for resp in conn.sent:
+                            try:
+                                for it in A.abs_response(A.decode_response(resp), intern)["items"]:
+                                    if it["msg"]:
+                                        out.append({"id": "w%d.%d" % (wid, len(out)), "kind": "message", "level": 0, "logger": "",
+                                                    "tainted": tainted(it["msg"], needles), "ops": "transparent-key-material:" + fmt,
+                                                    "text": it["msg"][:300]})
+                            except Exception:
+                                pass
         # damaged credentials: the password item of a valid request replaced, at byte level, by a password that is not valid
         # UTF-8, by a shorter / longer one, with another item type (the request then fails to parse - the failure is logged)
         if wid < 4:
@@ -231,6 +280,25 @@ def _history(args):
         try:
             from kmip.core import enums
             from kmip.pie import objects as pobj
+            # the ways a client can be given its password: file only, file + the same / another password as argument
+            # (after a rotation the file is stale), argument only - whichever wins, neither may reach the log
+            other = (CANARIES["credbin"][:6].hex() + "-Rotated-Canary-Pw")
+            needles.extend(forms(other.encode()))
+            for kwargs in ({"config": "client", "config_file": conf},
+                           {"config": "client", "config_file": conf, "password": other, "username": "alice"},
+                           {"config": "client", "config_file": conf, "password": CANARIES["credpw"].decode(), "username": "bob"},
+                           {"password": other, "username": "alice"},
+                           {"config": "nosuchsection", "config_file": conf, "password": other}):
+                try:
+                    cl = C.make_client(C.PipeSocket(drv2.engine), (1, 2), **kwargs)
+                    cl.get("999999")
+                except Exception:
+                    pass
+                try:
+                    from kmip.services import kmip_client
+                    kmip_client.KMIPProxy(**kwargs)
+                except Exception:
+                    pass
             for ver in [(1, 2), (2, 0)]:
                 sock = C.PipeSocket(drv2.engine)
                 cl = C.make_client(sock, ver, config="client", config_file=conf)
